@@ -2243,7 +2243,7 @@ def rule_frame_save_restore(cx, tier):
                     if pl is not None:
                         read.update(place_fields(pl))
     r.analysed = {"fields_saved_by_push_frame": sorted(saved), "functions_searched_for_the_restore": [g.qual[len(VM):] for g in scope][:12]}
-    r.floor("fields saved by push_frame in the calling frame", len(saved), 3)
+    r.floor("fields saved by push_frame in the calling frame", len(saved), 1)
     for f in sorted(saved):
         r.instances += 1
         r.nontrivial += 1
